@@ -70,7 +70,7 @@ Proof.
   - destruct f as [|f]; [lia|]. destruct toks as [|t ts]; [reflexivity|].
     cbn [parse_rows]. destruct (parse_row cols (t :: ts)) as [[st rest]|] eqn:E; [|reflexivity].
     apply parse_row_consumes in E. cbn in E, Hl.
-    rewrite (IH rest f) by lia. rewrite (IH rest (S n)) by lia. reflexivity.
+    rewrite (IH rest f) by lia. reflexivity.
 Qed.
 
 (* ---- documented exit statuses, nothing on stdout when rejecting -------------------------------- *)
